@@ -232,11 +232,14 @@ pub fn encode(s: &str, enc: Enc) -> Result<Vec<u8>, EvalErr> {
     match enc {
         Enc::Utf8 => out.extend_from_slice(s.as_bytes()),
         Enc::Ascii => {
+            // one byte per character; documented by the repository's own test
+            // tests/string_encoding/ok.asm: characters up to U+00FF give their Latin-1 byte,
+            // anything above gives 0x00
             for c in s.chars() {
-                if (c as u32) < 0x80 {
-                    out.push(c as u8);
+                if (c as u32) < 0x100 {
+                    out.push(c as u32 as u8);
                 } else {
-                    return Err(EvalErr::Unspecified("ascii() of a non-ASCII character"));
+                    out.push(0);
                 }
             }
         }
